@@ -80,6 +80,58 @@ def s_to_cache(rng):
     return {'self': k, 'psi': 'new vector'}
 
 
+_LATS = {}
+
+
+def _lattice(rng, bc, D):
+    """a real lattice of dimension D with a random named or custom order"""
+    import numpy as np
+    from tenpy.models import lattice
+    from tenpy.networks.site import SpinHalfSite
+    s = SpinHalfSite(None)
+    if D == 1:
+        cls, Ls = rng.choice([(lattice.Chain, (rng.randint(1, 5),)), (lattice.Ladder, (rng.randint(1, 4),))])
+    else:
+        cls, Ls = rng.choice([(lattice.Square, (rng.randint(1, 3), rng.randint(1, 3))), (lattice.Honeycomb, (rng.randint(1, 3), rng.randint(1, 3))),
+                              (lattice.Kagome, (rng.randint(1, 2), rng.randint(1, 2)))])
+    lat = cls(*Ls, s, bc_MPS=bc, bc='open' if bc == 'finite' and rng.random() < 0.5 else 'periodic',
+              order=rng.choice(['default', 'Cstyle', 'Fstyle', 'snake']))
+    if rng.random() < 0.4:
+        # custom order that keeps whole rings together (what the periodic extension of an infinite MPS assumes)
+        order = lat.order.copy()
+        per_ring = lat.N_sites // lat.N_rings
+        order = order[np.lexsort((np.arange(lat.N_sites), order[:, 0]))]
+        for x in range(lat.N_rings):
+            blk = list(range(x * per_ring, (x + 1) * per_ring))
+            rng.shuffle(blk)
+            order[x * per_ring:(x + 1) * per_ring] = order[blk]
+        lat.order = order
+    return lat
+
+
+def s_mps2lat(bc, D):
+    def s(rng):
+        lat = _lattice(rng, bc, D)
+        N = lat.N_sites
+        i = rng.randint(0, N - 1) if bc == 'finite' else rng.randint(-4 * N, 4 * N)
+        q, r = divmod(i, N)
+        return {'self': lat, 'i': i, 'q': q, 'r': r, 'ord': lambda r_, k: int(lat.order[r_][k])}
+    return s
+
+
+def s_lat2mps(bc, D):
+    def s(rng):
+        import numpy as np
+        lat = _lattice(rng, bc, D)
+        N = lat.N_sites
+        i = rng.randint(0, N - 1) if bc == 'finite' else rng.randint(-4 * N, 4 * N)
+        q, r = divmod(i, N)
+        li = lat.order[r].copy()
+        li[0] += q * lat.N_rings
+        return {'self': lat, 'lat_idx': np.array(li, dtype=np.intp), 'q': q, 'r': r, 'ord': lambda r_, k: int(lat.order[r_][k])}
+    return s
+
+
 SAMPLERS = {
     '_iter_common_sorted': s_iter_common,
     'LegCharge.get_qindex': s_get_qindex,
@@ -92,6 +144,11 @@ SAMPLERS = {
 for _bc in ('finite', 'infinite', 'segment'):
     SAMPLERS[f'MPSGeometry._to_valid_site_index[{_bc}]'] = s_geometry(_bc)
     SAMPLERS[f'MPSGeometry._to_valid_bond_index[{_bc}]'] = s_geometry_bond(_bc)
+
+for _bc in ('finite', 'infinite', 'segment'):
+    for _D in (1, 2):
+        SAMPLERS[f'Lattice.mps2lat_idx[{_bc}, dim={_D}]'] = s_mps2lat(_bc, _D)
+        SAMPLERS[f'Lattice.lat2mps_idx[{_bc}, dim={_D}]'] = s_lat2mps(_bc, _D)
 
 for _c in REGISTRY:
     if _c.name in SAMPLERS and _c.sampler is None:
